@@ -486,9 +486,40 @@ def presorted_cases(tier):
         }
 
 
+def wide_shuffle_cases(tier):
+    """Shuffles into MANY output partitions from few input partitions (and the reverse): partition numbers beyond 255 do not
+    fit the small unsigned dtype a staged task shuffle derives from the input partition count; 2/5/9 inputs x 130/257/300
+    outputs x max_branch 2|default x tasks (+ one disk case per layout)."""
+    import itertools
+
+    outs = [257, 300] if tier == "quick" else [130, 257, 300, 520]
+    for nin, nout, mb, seed in itertools.product([2, 5, 9], outs, [2, None], range(1 if tier == "quick" else 3)):
+        for method in ("tasks",) + (("disk",) if mb is None and nin == 5 else ()):
+            yield {
+                "columns": [{"kind": "key", "name": "k0", "card": 900}, {"kind": "int", "name": "c"}],
+                "index": {"kind": "range", "name": None},
+                "nrows": 700,
+                "seed": seed,
+                "partition": {"how": "npartitions", "n": nin, "sort": False},
+                "op": {"op": "shuffle", "on": ["k0"], "npartitions": nout, "method": method, "max_branch": mb, "ignore_index": False},
+            }
+    if tier != "quick":
+        for nin, nout in ((300, 3), (257, 257)):
+            yield {
+                "columns": [{"kind": "key", "name": "k0", "card": 900}, {"kind": "int", "name": "c"}],
+                "index": {"kind": "range", "name": None},
+                "nrows": 700,
+                "seed": 0,
+                "partition": {"how": "npartitions", "n": nin, "sort": False},
+                "op": {"op": "shuffle", "on": ["k0"], "npartitions": nout, "method": "tasks", "max_branch": 2, "ignore_index": False},
+            }
+
+
 SUBCHECKS = [
     Sub("shuffle", check_shuffle, strategy=lambda tier: shuffle_case(), n={"quick": 700, "thorough": 15000}, nontrivial=nt_shuffle, classes=cls_common,
         doc="shuffle(on, npartitions, tasks|disk, max_branch): rows preserved, each key value in exactly one partition"),
+    Sub("wide-shuffle", check_shuffle, kind="enum", cases=wide_shuffle_cases, nontrivial=lambda spec: True, classes=cls_common, exhaustive=True,
+        doc="shuffle of 700 rows (900 possible keys) from 2/5/9 partitions into 257/300 (thorough also 130/520) partitions, max_branch 2 or default, tasks (+disk): rows preserved, each key in one partition"),
     Sub("sort", check_sort, strategy=lambda tier: sort_case(), n={"quick": 700, "thorough": 15000}, nontrivial=nt_sort, classes=cls_common,
         doc="sort_values / set_index: globally ordered like pandas, same row multiset"),
     Sub("presorted", check_sort, kind="enum", cases=presorted_cases, nontrivial=lambda spec: spec["partition"]["n"] >= 2, classes=cls_common, exhaustive=True,
